@@ -630,11 +630,8 @@ func runFname(r *hx.Run, id string, name string) {
 		return
 	}
 	got := res.Msg.GetAttachments()[0].Name
-	if isPrintableASCII(sanitized(name)) {
-		r.Add(c, "ok "+hx.Hex([]byte(got)), true)
-	} else {
-		r.AddOracleOnly(c, true) // mime.WordEncoder is not modelled
-	}
+	// model: Writer.file_hdrs (word encoder included) composed with the parser model
+	r.Add(c, "ok "+hx.Hex([]byte(got)), true)
 	r.Dist["fname:"+nameClass(name)]++
 	if got != sanitized(name) {
 		r.Fail(id, nameClass(name), fmt.Sprintf("attachment name %q parsed back as %q", name, got))
